@@ -306,6 +306,17 @@ def run(pid, tier, seed, args, t0):
                 wit = dict(f, module=module)
         if wit is None and standin_fail:
             wit = dict(standin_fail[0][1], module=standin_fail[0][0])
+        if k is not None and o["status"] == "unknown":
+            # an obligation that belongs to a recorded finding and that the solver left open this time: the finding
+            # is decided by replaying its recorded witness on the real code, not by the solver
+            rr = run_standin(k["witness"]["module"], pid, "quick", seed, {"replay": k["witness"]}) \
+                if k.get("witness") else {"failures": []}
+            if rr.get("failures"):
+                if k["id"] not in reported_kf:
+                    reported_kf.add(k["id"])
+                    known_lines.append("KNOWN-FINDING: property=%s %s" % (pid, k["what"]))
+                o["status"] = "refuted"
+                continue
         if o["status"] == "unknown":
             fn = name.split("#")[0]
             same_code = all(base_sha.get(kf_) == sh for kf_, sh in fn_sha.items() if kf_.endswith(fn)) and \
